@@ -32,7 +32,8 @@ def is_effect(e):
 
 
 def r1_guards(ctx, f, rep):
-    rep.rule('C11-R1', 'in the ChangeSuspectToDown arm every effect is guarded by self.timer_token == token; the record is '
+    rep.rule('C11-R1', 'in the ChangeSuspectToDown arm every effect is guarded by self.timer_token == token, and with a current '
+                       'token the update is always attempted; the record is '
                        'touched only through apply_existing_if with the condition `member.incarnation() == incarnation` '
                        '(the timer\'s snapshot) and the applied value is Member(member_id, incarnation, Down) from the same '
                        'timer fields')
@@ -53,6 +54,11 @@ def r1_guards(ctx, f, rep):
         if tok is False:
             rep.check(not any(is_effect(e) for e in p.events) and p.ret[0] == 'agg' and p.ret[3] == 'Ok', 'C11-R1', b.nname,
                       'a stale-epoch timeout returns Ok(()) without any effect', construct='stale-epoch')
+        if tok is True and p.end == 'return':
+            # the other direction: with a current token nothing but the record itself (the condition handed to
+            # apply_existing_if) can call the timeout off - no extra guard in front of the attempt
+            rep.check(any(e['res'] == 'member::Members::apply_existing_if' for e in p.calls()), 'C11-R1', b.nname,
+                      'a current-epoch timeout always attempts the Down update', construct='always-attempted')
         for e in p.calls():
             if e['res'] == 'member::Members::apply_existing_if':
                 m = e['args'][1]
